@@ -29,13 +29,13 @@ def rand_rotation(rng, dim):
     pyth = [(3 / 5, 4 / 5), (5 / 13, 12 / 13), (8 / 17, 15 / 17), (7 / 25, 24 / 25), (1.0, 0.0), (0.0, 1.0)]
     if dim == 2:
         c, s = rng.choice(pyth)
-        if rng.random() < 0.5:
+        if not (rng.random() >= 0.5):
             s = -s
         return np.array([[c, -s], [s, c]])
     R = np.eye(3)
     for ax in rng.sample([0, 1, 2], 3):
         c, s = rng.choice(pyth)
-        if rng.random() < 0.5:
+        if not (rng.random() >= 0.5):
             s = -s
         i, j = [k for k in range(3) if k != ax]
         G = np.eye(3)
@@ -112,11 +112,11 @@ def main():
             C3, S3 = m3.C, m3.S
             sc = np.abs(C3).max()
             res.case((rep, kind, "3d-basic"))
-            if np.abs(C3 - C3.T).max() > TOL * sc:
+            if not (np.abs(C3 - C3.T).max() <= TOL * sc):
                 res.fail(f"law={kind} symmetric", "3D stiffness is not symmetric", ident)
             if np.linalg.eigvalsh((C3 + C3.T) / 2).min() <= 0:
                 res.fail(f"law={kind} positive-definite", f"3D stiffness has eigenvalue {np.linalg.eigvalsh((C3 + C3.T) / 2).min():.3e} <= 0 for admissible parameters", ident)
-            if np.abs(C3 @ S3 - np.eye(6)).max() > 1e-9:
+            if not (np.abs(C3 @ S3 - np.eye(6)).max() <= 1e-9):
                 res.fail(f"law={kind} C.S=I", f"|C S - I| = {np.abs(C3 @ S3 - np.eye(6)).max():.3e}", ident)
             # correspondence with the generated matrices
             if kind == "iso":
@@ -135,10 +135,10 @@ def main():
                 m2 = law_3d(kind, p, dim=2, ps=ps)
                 res.case((rep, kind, "plane", ps))
                 want = np.linalg.inv(S3[np.ix_(idx, idx)]) if ps else C3[np.ix_(idx, idx)]
-                if np.abs(m2.C - want).max() > TOL * sc:
+                if not (np.abs(m2.C - want).max() <= TOL * sc):
                     res.fail(f"law={kind} plane-{'stress' if ps else 'strain'}-reduction",
                              f"2D law differs from the {'plane-stress condensation' if ps else 'plane-strain restriction'} of the 3D law by {np.abs(m2.C - want).max():.3e}", ident)
-                if np.abs(m2.C @ m2.S - np.eye(3)).max() > 1e-9:
+                if not (np.abs(m2.C @ m2.S - np.eye(3)).max() <= 1e-9):
                     res.fail(f"law={kind} 2D C.S=I", "2D C S != I", ident)
             if kind == "iso":
                 continue
@@ -147,7 +147,8 @@ def main():
                 Q = rand_rotation(rng, dim)
                 Q3 = np.eye(3)
                 Q3[:dim, :dim] = Q
-                scale1, scale2 = rng.choice([1.0, 2.0, 0.5, 3.0]), rng.choice([1.0, 0.25, 5.0])
+                # lengths from 1e-3 to a few thousands (a direction read off a mesh in millimetres)
+                scale1, scale2 = rng.choice([1.0, 2.0, 0.5, 3.0, 1000.0, 250.0, 1e-3]), rng.choice([1.0, 0.25, 5.0, 1000.0, 4000.0])
                 a1, a2 = Q3[:, 0] * scale1, Q3[:, 1] * scale2
                 ident2 = dict(ident, axis_1=a1.tolist(), axis_2=a2.tolist(), dim=dim)
                 res.case((rep, kind, "rotated", dim))
@@ -157,9 +158,9 @@ def main():
                     res.fail(f"law={kind} rotated-axes raises", f"constructor raised {ex!r} for orthogonal unnormalised axes", ident2)
                     continue
                 want = rotate_mandel(C3, Q3)
-                if np.abs(mr.C - want).max() > 1e-8 * sc:
+                if not (np.abs(mr.C - want).max() <= 1e-8 * sc):
                     res.fail(f"law={kind} rotated-tensor", f"law with axes rotated by Q differs from the Q-rotated tensor by {np.abs(mr.C - want).max():.3e}", ident2)
-                if np.abs(mr.C @ mr.S - np.eye(6)).max() > 1e-8:
+                if not (np.abs(mr.C @ mr.S - np.eye(6)).max() <= 1e-8):
                     res.fail(f"law={kind} rotated C.S=I", "C S != I for rotated axes", ident2)
             # 2D laws whose material axes are tilted OUT of the (x, y) plane: the 2D law is still the reduction of the rotated 3D law
             # (zero out-of-plane STRESS, shear components included, in plane stress; zero out-of-plane strain in plane strain)
@@ -176,9 +177,83 @@ def main():
                     res.fail(f"law={kind} 2D law with axes out of the plane raises", f"constructor raised {ex!r}", identt)
                     continue
                 wantt = np.linalg.inv(S3t[np.ix_(idx, idx)]) if ps else C3t[np.ix_(idx, idx)]
-                if np.abs(m2t.C - wantt).max() > 1e-8 * sc:
+                if not (np.abs(m2t.C - wantt).max() <= 1e-8 * sc):
                     res.fail(f"law={kind} plane-{'stress' if ps else 'strain'}-reduction with axes out of the plane",
                              f"2D law differs from the {'plane-stress condensation' if ps else 'plane-strain restriction'} of the rotated 3D law by {np.abs(m2t.C - wantt).max():.3e}", identt)
+        # unit systems: the law is homogeneous of degree one in the moduli. The same material entered in another unit
+        # (MPa -> Pa, GPa, N/mm^2 -> TPa ...), with material axes that are not the global ones, has C multiplied and S
+        # divided by the unit factor, S stays the symmetric positive definite inverse of C, and the 2D laws stay the reductions.
+        for kind in ("iso", "ti", "ortho", "aniso"):
+            unit = rng.choice([1e-9, 1e-6, 1e-3, 1e3, 1e6, 1e9, 1e11])
+            dimu, psu = rng.choice([(3, False), (3, False), (2, True), (2, False)])
+            Qu = rand_rotation(rng, 3 if kind != "aniso" else dimu)
+            Q3u = np.eye(3)
+            Q3u[:Qu.shape[0], :Qu.shape[0]] = Qu
+            a1u, a2u = tuple(Q3u[:, 0]), tuple(Q3u[:, 1])
+            identu = dict(law=kind, dim=dimu, planeStress=psu, unit=unit, axis_1=list(a1u), axis_2=list(a2u))
+            res.case((rep, "units", kind, dimu, psu, unit))
+            try:
+                if kind == "aniso":
+                    baseu = law_3d("ortho", draw(rng, "ortho"), dim=dimu, ps=False).C
+                    nu_ = baseu.shape[0]
+                    Gu = np.array([[q(rng, -1, 1) for _ in range(nu_)] for _ in range(nu_)])
+                    baseu = baseu + 0.25 * (Gu + Gu.T)
+                    wu, _ = np.linalg.eigh(baseu)
+                    if not (wu.min() >= 0.5):
+                        baseu = baseu + (0.5 - wu.min()) * np.eye(nu_)
+                    identu["C_mandel"] = baseu.tolist()
+                    m_one = E_.Anisotropic(dimu, baseu, False, a1u, a2u)
+                    m_unit = E_.Anisotropic(dimu, baseu * unit, False, a1u, a2u)
+                else:
+                    pu = draw(rng, kind)
+                    identu["params"] = pu
+                    pscaled = {k_: (v_ if k_.startswith("v") else v_ * unit) for k_, v_ in pu.items()}
+                    m_one = law_3d(kind, pu, a1u, a2u, dim=dimu, ps=psu)
+                    m_unit = law_3d(kind, pscaled, a1u, a2u, dim=dimu, ps=psu)
+                C1u, S1u = np.asarray(m_one.C, float), np.asarray(m_one.S, float)
+                Cuu, Suu = np.asarray(m_unit.C, float), np.asarray(m_unit.S, float)
+            except Exception as ex:  # noqa: BLE001
+                res.fail(f"law={kind} in another unit system raises", f"{type(ex).__name__}: {str(ex)[:150]}", identu)
+                continue
+            nu_ = C1u.shape[-1]
+            errC = np.abs(Cuu - unit * C1u).max() / np.abs(unit * C1u).max()
+            errS = np.abs(Suu - S1u / unit).max() / np.abs(S1u / unit).max()
+            if not (errC <= 1e-9):
+                res.fail(f"law={kind} stiffness depends on the unit system", f"C(unit * moduli) differs from unit * C(moduli) by a relative {errC:.3e} (unit factor {unit:g})", identu)
+            if not (errS <= 1e-9):
+                res.fail(f"law={kind} compliance depends on the unit system", f"S(unit * moduli) differs from S(moduli) / unit by a relative {errS:.3e} (unit factor {unit:g})", identu)
+            if not (np.abs(Cuu @ Suu - np.eye(nu_)).max() <= 1e-8):
+                res.fail(f"law={kind} C.S=I in another unit system", f"|C S - I| = {np.abs(Cuu @ Suu - np.eye(nu_)).max():.3e} (unit factor {unit:g})", identu)
+            if not (np.linalg.eigvalsh((Suu + Suu.T) / 2).min() > 0):
+                res.fail(f"law={kind} compliance positive-definite in another unit system", f"S has eigenvalue {np.linalg.eigvalsh((Suu + Suu.T) / 2).min():.3e} <= 0 (unit factor {unit:g})", identu)
+        # the exported change of basis is linear in the matrix: Apply_Pmat(P, M) is P M P^T (P^T M P towards the material frame)
+        # whatever the magnitude of M (a stiffness in Pa, a compliance in 1/Pa), for one frame or one frame per element
+        for dim in (2, 3):
+            nd = 3 if dim == 2 else 6
+            nfr = rng.choice([0, 3])
+            Qm = [rand_rotation(rng, dim) for _ in range(max(nfr, 1))]
+            A1m = np.array([Q_[:, 0] for Q_ in Qm])
+            A2m = np.array([Q_[:, 1] for Q_ in Qm])
+            mag = rng.choice([1e-12, 1e-9, 1e-6, 1.0, 1e6, 1e11])
+            Gm = np.array([[q(rng, -1, 1) for _ in range(nd)] for _ in range(nd)])
+            Mm = (Gm + Gm.T + 4 * np.eye(nd)) * mag
+            identm = dict(dim=dim, frames=nfr, axis_1=A1m.tolist(), axis_2=A2m.tolist(), M=Mm.tolist())
+            res.case((rep, "apply-pmat-magnitude", dim, nfr, mag))
+            try:
+                Pm = Get_Pmat(A1m if nfr else A1m[0], A2m if nfr else A2m[0])
+                Mg = np.asarray(Apply_Pmat(Pm, Mm, toGlobal=True), float).reshape(-1, nd, nd)
+                Ml = np.asarray(Apply_Pmat(Pm, Mm, toGlobal=False), float).reshape(-1, nd, nd)
+            except Exception as ex:  # noqa: BLE001
+                res.fail(f"Apply_Pmat dim={dim} raises", f"{type(ex).__name__}: {str(ex)[:150]}", identm)
+                continue
+            Pf = np.asarray(Pm, float).reshape(-1, nd, nd)
+            for k in range(Pf.shape[0]):
+                eg = np.abs(Mg[k] - Pf[k] @ Mm @ Pf[k].T).max() / np.abs(Mm).max()
+                el = np.abs(Ml[k] - Pf[k].T @ Mm @ Pf[k]).max() / np.abs(Mm).max()
+                if not (eg <= 1e-12) or not (el <= 1e-12):
+                    res.fail(f"Apply_Pmat dim={dim} is not P M P^T for a matrix of small or large magnitude",
+                             f"Apply_Pmat(P, M) differs from the matrix product by a relative {max(eg, el):.3e} for |M| ~ {mag:g}", identm)
+                    break
         # Get_Pmat for scalar / per-element / per-Gauss-point axes, orthonormal or merely orthogonal
         for dim in (2, 3):
             shape = rng.choice([(), (3,), (2, 2)])
@@ -188,7 +263,7 @@ def main():
             Qs = []
             for k in range(n):
                 Q = rand_rotation(rng, dim)
-                if rng.random() < 0.3 and dim == 2:
+                if not (rng.random() >= 0.3) and dim == 2:
                     Q = Q @ np.diag([1, -1])  # reflection
                 Qs.append(Q)
                 A1[k], A2[k] = Q[:, 0] * rng.choice([1.0, 2.0, 0.5]), Q[:, 1] * rng.choice([1.0, 3.0, 0.25])
@@ -204,16 +279,16 @@ def main():
             nd = 3 if dim == 2 else 6
             Pf = np.asarray(P).reshape(-1, nd, nd)
             for k in range(n):
-                if np.abs(Pf[k] @ Pf[k].T - np.eye(nd)).max() > 1e-9:
+                if not (np.abs(Pf[k] @ Pf[k].T - np.eye(nd)).max() <= 1e-9):
                     res.fail(f"Get_Pmat dim={dim} orthogonal", f"P P^T - I = {np.abs(Pf[k] @ Pf[k].T - np.eye(nd)).max():.3e} for orthogonal (unnormalised) axes", ident3)
                     break
                 # tensor rotation of a random symmetric strain
-                if dim == 3 and abs(np.linalg.det(Qs[k]) - 1) < 1e-9:
+                if dim == 3 and not (abs(np.linalg.det(Qs[k]) - 1) >= 1e-9):
                     e = np.array([[q(rng, -1, 1) for _ in range(3)] for _ in range(3)])
                     e = (e + e.T) / 2
                     w = np.array([1, 1, 1, np.sqrt(2), np.sqrt(2), np.sqrt(2)])
                     vec = lambda t: np.array([t[i, j] for (i, j) in MANDEL]) * w  # noqa: E731
-                    if np.abs(Pf[k] @ vec(e) - vec(Qs[k] @ e @ Qs[k].T)).max() > 1e-9:
+                    if not (np.abs(Pf[k] @ vec(e) - vec(Qs[k] @ e @ Qs[k].T)).max() <= 1e-9):
                         res.fail("Get_Pmat dim=3 tensor-rotation", "P vec(eps) != vec(Q eps Q^T)", ident3)
                         break
                 if dim == 2:
@@ -221,7 +296,7 @@ def main():
                     e2 = np.array([[q(rng, -1, 1) for _ in range(2)] for _ in range(2)])
                     e2 = (e2 + e2.T) / 2
                     vec2 = lambda t: np.array([t[0, 0], t[1, 1], np.sqrt(2) * t[0, 1]])  # noqa: E731
-                    if np.abs(Pf[k] @ vec2(e2) - vec2(Qs[k] @ e2 @ Qs[k].T)).max() > 1e-9:
+                    if not (np.abs(Pf[k] @ vec2(e2) - vec2(Qs[k] @ e2 @ Qs[k].T)).max() <= 1e-9):
                         res.fail("Get_Pmat dim=2 tensor-rotation", "P vec(eps) != vec(Q eps Q^T) for axes given with two components", ident3)
                         break
         # Voigt vs Kelvin-Mandel input for the anisotropic law
@@ -233,7 +308,7 @@ def main():
                 G_ = np.array([[q(rng, -1, 1) for _ in range(n)] for _ in range(n)])
                 base = base + 0.5 * (G_ + G_.T) + 0.0 * np.eye(n)
                 w_, _ = np.linalg.eigh(base)
-                if w_.min() < 0.5:
+                if not (w_.min() >= 0.5):
                     base = base + (0.5 - w_.min()) * np.eye(n)
             nn = 2 if dim == 2 else 3
             voigt = base.copy()
@@ -247,9 +322,9 @@ def main():
             Am = E_.Anisotropic(dim, base, False, a1, a2)
             Av = E_.Anisotropic(dim, voigt, True, a1, a2)
             res.case((rep, "aniso", dim))
-            if np.abs(Am.C - Av.C).max() > 1e-9 * np.abs(base).max():
+            if not (np.abs(Am.C - Av.C).max() <= 1e-9 * np.abs(base).max()):
                 res.fail(f"anisotropic voigt-vs-mandel dim={dim}", f"same material entered in Voigt and Kelvin-Mandel notation gives laws differing by {np.abs(Am.C - Av.C).max():.3e}", dict(dim=dim))
-            if np.abs(Am.C @ Am.S - np.eye(n)).max() > 1e-8:
+            if not (np.abs(Am.C @ Am.S - np.eye(n)).max() <= 1e-8):
                 res.fail(f"anisotropic C.S=I dim={dim}", "C S != I", dict(dim=dim))
             # a table of moduli typed in as whole numbers (integer dtype) is the same material as the same table in floats
             vint = np.diag([40, 30, 20, 6, 5, 4][:n] if dim == 3 else [40, 30, 6]).astype(np.int64)
@@ -259,7 +334,7 @@ def main():
                 Ai = E_.Anisotropic(dim, vint, True, a1, a2)
                 Af = E_.Anisotropic(dim, vint.astype(float), True, a1, a2)
                 res.case((rep, "aniso-int", dim))
-                if np.abs(np.asarray(Ai.C, float) - Af.C).max() > 1e-9 * np.abs(Af.C).max():
+                if not (np.abs(np.asarray(Ai.C, float) - Af.C).max() <= 1e-9 * np.abs(Af.C).max()):
                     res.fail(f"anisotropic integer Voigt input dim={dim}", f"the Voigt matrix given with an integer dtype gives a law differing by {np.abs(np.asarray(Ai.C, float) - Af.C).max():.3e} from the same matrix in floats",
                              dict(dim=dim, voigt=vint.tolist()))
             except Exception as ex:  # noqa: BLE001
@@ -288,9 +363,38 @@ def main():
                 Cf, Sf = Cf.reshape(npts, nn_, nn_), Sf.reshape(npts, nn_, nn_)
                 for e in range(npts):
                     ref = law_3d(kind, plist[e], a1h, a2h, dim=dim, ps=ps)
-                    if np.abs(Cf[e] - ref.C).max() > 1e-9 * np.abs(ref.C).max() or np.abs(Sf[e] - ref.S).max() > 1e-9 * np.abs(ref.S).max():
+                    if not (np.abs(Cf[e] - ref.C).max() <= 1e-9 * np.abs(ref.C).max()) or not (np.abs(Sf[e] - ref.S).max() <= 1e-9 * np.abs(ref.S).max()):
                         res.fail(f"heterogeneous law differs from the scalar law law={kind} planeStress={ps} field={'per Gauss point' if len(shape) == 2 else 'per element'}",
                                  f"entry {e} of C / S built from parameter arrays of shape {shape} differs from the law of the same parameters given as scalars by {np.abs(Cf[e] - ref.C).max():.3e}", identh)
+                        break
+        # a field on ONE parameter only, the others staying scalars (a stiffness map identified on a single modulus)
+        for kind in ("ti", "ortho"):
+            p0 = draw(rng, kind)
+            for name_ in p0:
+                dim, ps = rng.choice([(2, True), (2, False), (3, False)])
+                shape = rng.choice([(3,), (2, 2)])
+                npts = int(np.prod(shape))
+                vals = np.array([p0[name_] * f_ for f_ in (1.0, 0.875, 1.125, 0.9375)][:npts], dtype=float)
+                pone = dict(p0)
+                pone[name_] = vals.reshape(shape)
+                res.case((rep, "field-one", kind, name_, dim, ps, shape))
+                ident1 = dict(law=kind, dim=dim, planeStress=ps, field_on=name_, field_shape=list(shape), params={k_: (v_ if k_ != name_ else vals.tolist()) for k_, v_ in p0.items()})
+                try:
+                    m1 = law_3d(kind, pone, dim=dim, ps=ps)
+                    Cf, Sf = np.asarray(m1.C, dtype=float), np.asarray(m1.S, dtype=float)
+                except Exception as ex:  # noqa: BLE001
+                    res.fail(f"heterogeneous law raises law={kind} field on {name_} only", f"{type(ex).__name__}: {str(ex)[:150]}", ident1)
+                    continue
+                nn_ = Cf.shape[-1]
+                if Cf.size != npts * nn_ * nn_:
+                    res.fail(f"heterogeneous law is not a field law={kind} field on {name_} only", f"C has shape {Cf.shape} for a parameter of shape {shape}", ident1)
+                    continue
+                Cf, Sf = Cf.reshape(npts, nn_, nn_), Sf.reshape(npts, nn_, nn_)
+                for e in range(npts):
+                    ref = law_3d(kind, dict(p0, **{name_: float(vals[e])}), dim=dim, ps=ps)
+                    if not (np.abs(Cf[e] - ref.C).max() <= 1e-9 * np.abs(ref.C).max()) or not (np.abs(Sf[e] - ref.S).max() <= 1e-9 * np.abs(ref.S).max()):
+                        res.fail(f"heterogeneous law differs from the scalar law law={kind} field on {name_} only",
+                                 f"entry {e} of C / S differs from the law of the same parameters given as scalars by {np.abs(Cf[e] - ref.C).max():.3e}", ident1)
                         break
         # parameter change -> law changes on next read (scalar, array, in-place + re-assignment)
         for dim, ps in ((2, True), (3, False)):
@@ -303,7 +407,7 @@ def main():
             res.case((rep, "param-array", dim))
             for e in range(Ne):
                 ref = E_.Isotropic(dim, E=float(Earr[e]), v=0.25, planeStress=ps).C
-                if np.abs(C1[e] - ref).max() > 1e-9 * np.abs(ref).max():
+                if not (np.abs(C1[e] - ref).max() <= 1e-9 * np.abs(ref).max()):
                     res.fail("per-element parameter field", f"entry {e} of the heterogeneous law differs from the scalar formula", dict(dim=dim, E=Earr.tolist()))
                     break
             Earr *= 0.5
@@ -311,11 +415,11 @@ def main():
             C2 = mat.C
             ref = E_.Isotropic(dim, E=float(Earr[0]), v=0.25, planeStress=ps).C
             res.case((rep, "param-inplace", dim))
-            if np.abs(C2[0] - ref).max() > 1e-9 * np.abs(ref).max():
+            if not (np.abs(C2[0] - ref).max() <= 1e-9 * np.abs(ref).max()):
                 res.fail("parameter changed in place then re-assigned", "material.C still returns the law of the old values after `E *= 0.5; mat.E = E`", dict(dim=dim))
             mat.v = 0.125
             ref = E_.Isotropic(dim, E=float(Earr[0]), v=0.125, planeStress=ps).C
-            if np.abs(mat.C[0] - ref).max() > 1e-9 * np.abs(ref).max():
+            if not (np.abs(mat.C[0] - ref).max() <= 1e-9 * np.abs(ref).max()):
                 res.fail("parameter change not seen", "material.C does not follow v", dict(dim=dim))
             # tiny changes (finite-difference sensitivities, ramps in small increments): every change counts, however small
             mt = E_.Isotropic(dim, E=4.0, v=0.25, planeStress=ps)
@@ -325,7 +429,7 @@ def main():
                 kw_ = dict(E=float(mt.E), v=float(mt.v))
                 reft = E_.Isotropic(dim, planeStress=ps, **kw_)
                 res.case((rep, "param-tiny", dim, name_))
-                if np.abs(mt.C - reft.C).max() > 1e-13 * np.abs(reft.C).max() or np.abs(mt.S - reft.S).max() > 1e-13 * np.abs(reft.S).max():
+                if not (np.abs(mt.C - reft.C).max() <= 1e-13 * np.abs(reft.C).max()) or not (np.abs(mt.S - reft.S).max() <= 1e-13 * np.abs(reft.S).max()):
                     res.fail("tiny parameter change not seen", f"after {name_} was changed by a relative 1e-7 / absolute 2e-9, C or S is still the law of the old value (difference to a new law {np.abs(mt.C - reft.C).max() / np.abs(reft.C).max():.2e})",
                              dict(dim=dim, parameter=name_, new_value=new_))
             El0 = 10.0
@@ -335,7 +439,7 @@ def main():
                 mti.El = El0 * (1 + 2e-6) ** (kk + 1)
             refi = E_.TransverselyIsotropic(dim, float(mti.El), 4.0, 2.0, 0.25, 0.3, planeStress=ps)
             res.case((rep, "param-ramp", dim))
-            if np.abs(mti.C - refi.C).max() > 1e-12 * np.abs(refi.C).max():
+            if not (np.abs(mti.C - refi.C).max() <= 1e-12 * np.abs(refi.C).max()):
                 res.fail("parameter ramped in small increments not seen", f"after 50 increments of 2e-6 (relative) of El the law differs from a new law with the final value by {np.abs(mti.C - refi.C).max() / np.abs(refi.C).max():.2e}", dict(dim=dim))
 
     answers = driver.ask(lines)
@@ -351,9 +455,9 @@ def main():
                 res.disagree("model-answer", dict(ident=ident, tag=tag, answer=ans[:100]))
                 continue
             n = C.shape[0]
-            if np.abs(mats[0].reshape(n, n) - C).max() > 1e-9 * np.abs(C).max():
+            if not (np.abs(mats[0].reshape(n, n) - C).max() <= 1e-9 * np.abs(C).max()):
                 res.disagree("stiffness", dict(ident=ident, tag=tag, maxdev=float(np.abs(mats[0].reshape(n, n) - C).max())))
-            if S is not None and len(mats) > 1 and np.abs(mats[1].reshape(n, n) - S).max() > 1e-9 * np.abs(S).max():
+            if S is not None and len(mats) > 1 and not (np.abs(mats[1].reshape(n, n) - S).max() <= 1e-9 * np.abs(S).max()):
                 res.disagree("compliance", dict(ident=ident, tag=tag))
         res.sample(dict(request=lines[0], model=answers[0][:120]))
     res.search_note = "random admissible materials, axes and parameter histories found no violated law identity"
